@@ -8,7 +8,7 @@
    (kill when status < Stopping); theorems stated for an arbitrary rule `r` hold for the historical
    rule as well. *)
 From Coq Require Import List NArith Bool.
-From RV Require Import Tree.Model Tree.Proofs Tree.DriverProofs.
+From RV Require Import Tree.Model Tree.Proofs Tree.DriverProofs Tree.OracleProofs.
 Import ListNotations.
 Local Open Scope N_scope.
 
@@ -132,7 +132,56 @@ Proof. intros r ls n. apply (check_snap_sound r). exists ls; reflexivity. Qed.
 Theorem C05_driver_is_a_schedule : forall r ops, exists ls, core (drun r ops) = exec r ls init.
 Proof. intros r ops. exact (drun_reachable r ops). Qed.
 
+(* (7) soundness of the DYNAMIC part of the oracle, as evaluated by lib/c05.py on snapshot sequences.
+   A window = the labels between two snapshots.  Side conditions (explicit): the later snapshot is taken
+   at quiescence and the window contains no explicit unlink -- or no status changed in the window (the
+   window of an explicit unlink operation); all created actors are inside the snapshot (bounded).
+   Under these, for EVERY label list and every reachable start state the oracle accepts. *)
+Theorem C05_oracle_sound_window : forall n s ls,
+  let s' := exec rule_fixed ls s in
+  reachable rule_fixed s -> bounded n s' ->
+  (Forall no_unlink ls /\ (forall a, enabled_internal s' a = false)) \/ (forall a, st (s' a) = st (s a)) ->
+  check_pair (snap n s) (snap n s') = true.
+Proof. exact check_pair_sound. Qed.
+
+Theorem C05_oracle_sound : forall n ws s,
+  reachable rule_fixed s -> windows_ok n s ws ->
+  check_C05 (map (snap n) (run_windows s ws)) = true.
+Proof. exact check_C05_sound. Qed.
+
+(* the orphan clause of check_C05_full: after an accepted link of c under p (the one spawn_linked
+   performs), along any window without explicit unlink and without another link of c, at quiescence
+   c still names p or is Stopping/Stopped *)
+Theorem C05_oracle_sound_spawn : forall n s c p s1 ls,
+  reachable rule_fixed s -> do_link s c p = (s1, true) ->
+  Forall (no_move c) ls ->
+  let s2 := exec rule_fixed ls s1 in
+  (forall a, enabled_internal s2 a = false) -> bounded n s2 ->
+  oeq (sup_of (snap n s2) c) p || (5 <=? rank_of (snap n s2) c) = true.
+Proof. exact spawn_clause_sound. Qed.
+
+(* the unconditional form is false: a snapshot taken before quiescence (Kill still pending) is rejected,
+   and so is a window in which the child is explicitly unlinked before the supervisor exits *)
+Theorem C05_oracle_unconditional_refuted :
+  ~ (forall n s ls, reachable rule_fixed s ->
+       check_pair (snap n s) (snap n (exec rule_fixed ls s)) = true).
+Proof. exact check_pair_unconditional_refuted. Qed.
+
+(* every detached actor's own child set is closed, or its take is still queued (used by (7)) *)
+Theorem C05_detached_is_closed : forall r ls c t,
+  let s := exec r ls init in
+  doomed (s c) = Some t -> children (s c) = None \/ In (TTake c) (work s t).
+Proof. intros r ls c t s. apply (doomed_closed_reachable r). exists ls; reflexivity. Qed.
+
 (* ---- statement pins ---- *)
+Check (C05_oracle_sound : forall n ws s,
+  reachable rule_fixed s -> windows_ok n s ws ->
+  check_C05 (map (snap n) (run_windows s ws)) = true).
+Check (C05_oracle_sound_window : forall n s ls,
+  let s' := exec rule_fixed ls s in
+  reachable rule_fixed s -> bounded n s' ->
+  (Forall no_unlink ls /\ (forall a, enabled_internal s' a = false)) \/ (forall a, st (s' a) = st (s a)) ->
+  check_pair (snap n s) (snap n s') = true).
 Check (C05_two_sided : forall r ls c p, let s := exec r ls init in
   supervisor (s c) = Some p <-> (exists l, children (s p) = Some l /\ In c l)).
 Check (C05_stopped_is_bare : forall r ls a, let s := exec r ls init in
@@ -205,6 +254,15 @@ Example ex_f2_oracle :
       OSend 1 MBlock; OSettle 2; ODrain 1; OSettle 2; OKill 0; OSettle 2])) = true.
 Proof. vm_compute. split; reflexivity. Qed.
 
+(* the hypotheses of C05_oracle_sound are met by a real run: set-up window, exit window (quiescent) *)
+Example ex_windows_ok :
+  let ws := [w_setup; w_exit0 ++ [LSignal 1; LTerm 1; LTerm 1; LTerm 1; LClean 1; LTerm 1; LTerm 1; LTerm 1;
+                                  LClean 1; LClean 1; LClean 1; LClean 1]] in
+  map (snap 2) (run_windows init ws)
+  = [[(0, [], None); (0, [], None)]; [(2, [1], None); (2, [], Some 0)]; [(6, [], None); (6, [], None)]]
+  /\ map (fun s => map (enabled_internal s) [0; 1]) (run_windows init ws) = [[false; false]; [false; false]; [false; false]].
+Proof. vm_compute. split; reflexivity. Qed.
+
 Print Assumptions C05_two_sided.
 Print Assumptions C05_one_supervisor.
 Print Assumptions C05_stopped_is_bare.
@@ -223,3 +281,8 @@ Print Assumptions C05_race_outcome.
 Print Assumptions C05_link_accepted_is_child.
 Print Assumptions C05_oracle_sound_static.
 Print Assumptions C05_driver_is_a_schedule.
+Print Assumptions C05_oracle_sound_window.
+Print Assumptions C05_oracle_sound.
+Print Assumptions C05_oracle_sound_spawn.
+Print Assumptions C05_oracle_unconditional_refuted.
+Print Assumptions C05_detached_is_closed.
